@@ -194,3 +194,19 @@ Proof.
   - apply unescape_escape. right. reflexivity.
   - intros. apply other_unchanged; assumption.
 Qed.
+
+(* escape applied to its own output any number of times: every layer is undone by one decoding, and no layer
+   leaves a raw special byte *)
+Lemma iter_shift {A : Type} (f : A -> A) (n : nat) (x : A) : Nat.iter n f (f x) = f (Nat.iter n f x).
+Proof. induction n as [|n IH]; [reflexivity|]. cbn [Nat.iter nat_rect]. f_equal. exact IH. Qed.
+
+Lemma C07_iterated_proof : forall (n : nat) (s : bytes),
+  Nat.iter n unescape (Nat.iter n escape s) = s /\
+  (forall c, In c (Nat.iter (S n) escape s) -> c <> c_lt /\ c <> c_gt /\ c <> c_dq /\ c <> c_sq).
+Proof.
+  intros n s. split.
+  - revert s. induction n as [|n IH]; intro s; [reflexivity|].
+    change (unescape (Nat.iter n unescape (escape (Nat.iter n escape s))) = s).
+    rewrite <- (iter_shift unescape). rewrite C07_roundtrip_proof. apply IH.
+  - intro c. change (Nat.iter (S n) escape s) with (escape (Nat.iter n escape s)). apply C07_no_raw_special_proof.
+Qed.
